@@ -129,6 +129,14 @@ macro_rules! entry2d_case {
                     }
                 }
             }
+            // an empty xs with a non-empty ys is a shape mismatch like any other
+            if qx.ndim() == 1 {
+                let e: Array<Sym, $Dq> = sym_array("qe", &[0], 0.0, 1.0).into_dimensionality::<$Dq>().unwrap();
+                let f: Array<Sym, $Dq> = sym_array("qf", &[3], y0 + 0.01, yn - 0.01).into_dimensionality::<$Dq>().unwrap();
+                let mut buf: Array<Sym, $B> = Array::from_elem(r_arr.raw_dim(), var("POISON", 12345.0));
+                let r = catch_unwind(AssertUnwindSafe(|| interp.interp_array_into(&e, &f, buf.view_mut())));
+                ck(checks, format!("C14:{tag}:reject[empty-xs-nonempty-ys]"), !matches!(r, Ok(Ok(()))), String::new());
+            }
             // xs / ys of different shapes never produce Ok (C14)
             if qx.ndim() > 0 {
                 let mut s2 = qshape.to_vec(); s2[0] += 1;
@@ -413,6 +421,29 @@ pub fn builder_table(_args: &[String], checks: &mut Vec<Check>) {
                         Ok(Err(e)) => ck(checks, name, !valid && violated.contains(&kind(&e)), format!("Err({}) violated={violated:?}", kind(&e))),
                     }
                 }
+            }
+        }
+    }
+    // ---- the same decision for axes given as reversed-stride views (memory order is the reverse of the logical order)
+    for len in 2..6usize {
+        for (pname, xs, rising) in axis_patterns(len) {
+            let data = Array1::from((0..len).map(|i| i as f64).collect::<Vec<_>>());
+            let mut xr = Array1::from(xs.iter().rev().copied().collect::<Vec<_>>());
+            xr.invert_axis(Axis(0));
+            let r = catch_unwind(AssertUnwindSafe(|| Interp1DBuilder::new(data.clone()).x(xr.clone()).build().map(|_| ())));
+            let name = format!("C10:table1d[reversed-stride axis,len={len},{pname}]");
+            match r {
+                Err(_) => ck(checks, name, false, "panic".into()),
+                Ok(Ok(())) => ck(checks, name, rising, "accepted".into()),
+                Ok(Err(e)) => ck(checks, name, !rising && kind(&e) == "Monotonic", format!("Err({})", kind(&e))),
+            }
+            let d2 = Array2::<f64>::from_shape_fn((len, 2), |(i, j)| (i + j) as f64);
+            let r = catch_unwind(AssertUnwindSafe(|| Interp2DBuilder::new(d2.clone()).x(xr.clone()).build().map(|_| ())));
+            let name = format!("C10:table2d[reversed-stride x axis,len={len},{pname}]");
+            match r {
+                Err(_) => ck(checks, name, false, "panic".into()),
+                Ok(Ok(())) => ck(checks, name, rising, "accepted".into()),
+                Ok(Err(e)) => ck(checks, name, !rising && kind(&e) == "Monotonic", format!("Err({})", kind(&e))),
             }
         }
     }
@@ -709,6 +740,22 @@ pub fn layouts(args: &[String], checks: &mut Vec<Check>) {
     }
     let mut ds = vec![n]; ds.extend(&tshape);
     let data = sym_array("y", &ds, -2.0, 3.0);
+    // single-point results written into F-order, reversed-stride and permuted-memory caller buffers
+    macro_rules! into_bufs { ($it:expr, $out:expr) => {{
+        if let Some(q) = qv.first() {
+            let r = $it.interp(*q).unwrap();
+            let mut fb = ArrayD::from_elem(r.raw_dim().f(), konst_frac(0, 1));
+            $it.interp_into(*q, fb.view_mut()).unwrap();
+            $out.extend(fb.iter().map(|s| s.0));
+            let all: Vec<usize> = (0..r.ndim()).collect();
+            let mut rb = reversed_strides(&ArrayD::from_elem(r.raw_dim(), konst_frac(0, 1)), &all);
+            $it.interp_into(*q, rb.view_mut()).unwrap();
+            $out.extend(rb.iter().map(|s| s.0));
+            let mut pb = permuted_memory(&ArrayD::from_elem(IxDyn(&[&[1usize][..], r.shape()].concat()), konst_frac(0, 1)));
+            $it.interp_into(*q, pb.index_axis_mut(Axis(0), 0)).unwrap();
+            $out.extend(pb.iter().map(|s| s.0));
+        }
+    }}; }
     macro_rules! run_with { ($d:expr, $xa:expr) => {{
         let d = $d; let xa = $xa;
         catch_unwind(AssertUnwindSafe(|| -> Vec<u32> {
@@ -716,6 +763,7 @@ pub fn layouts(args: &[String], checks: &mut Vec<Check>) {
             if strat == "linear" {
                 let it = Interp1DBuilder::new(d).x(xa).strategy(Linear::new().extrapolate(true)).build().unwrap();
                 for q in qv.iter() { out.extend(it.interp(*q).unwrap().iter().map(|s| s.0)); }
+                into_bufs!(it, out);
                 out.extend(it.interp_array(&qarr).unwrap().iter().map(|s| s.0));
             } else {
                 let it = Interp1DBuilder::new(d).x(xa).strategy(CubicSpline::new().extrapolate(true)).build().unwrap();
@@ -747,6 +795,7 @@ pub fn layouts(args: &[String], checks: &mut Vec<Check>) {
             if strat == "linear" {
                 let it = Interp1DBuilder::new(v).x(xv).strategy(Linear::new().extrapolate(true)).build().unwrap();
                 for q in qv.iter() { out.extend(it.interp(*q).unwrap().iter().map(|s| s.0)); }
+                into_bufs!(it, out);
                 out.extend(it.interp_array(&qarr).unwrap().iter().map(|s| s.0));
             } else {
                 let it = Interp1DBuilder::new(v).x(xv).strategy(CubicSpline::new().extrapolate(true)).build().unwrap();
@@ -781,7 +830,7 @@ pub fn scalar(args: &[String], checks: &mut Vec<Check>) {
     }}; }
     cmp!("linear", Interp1DBuilder::new(data.clone()).x(x.clone()).strategy(Linear::new()).build().unwrap());
     cmp!("linear-extrap", Interp1DBuilder::new(data.clone()).x(x.clone()).strategy(Linear::new().extrapolate(true)).build().unwrap());
-    cmp!("spline", Interp1DBuilder::new(data.clone()).x(x.clone()).strategy(CubicSpline::new()).build().unwrap());
+    if n >= 3 { cmp!("spline", Interp1DBuilder::new(data.clone()).x(x.clone()).strategy(CubicSpline::new()).build().unwrap()); }
     cmp!("default-axis", Interp1DBuilder::new(data.clone()).build().unwrap());
     // custom strategy: interp_scalar must go through the strategy with the unmodified query and a 0-d target
     reset_logs2();
@@ -812,4 +861,80 @@ pub fn scalar(args: &[String], checks: &mut Vec<Check>) {
             (Err(_), Err(_)) => {} _ => { ok = false; detail = format!("Ok/Err mismatch at query {i}"); } }
     }
     ck(checks, format!("C09:scalar-eq-interp[bilinear,n={n}]"), ok, detail);
+}
+
+// ------------------------------------------------------------------------------------------------
+// C06: inside the range the extrapolation flag is unobservable (same nodes with the flag on and off),
+// on data whose f64 evaluation over- or undershoots the knot values (so that any "repair" of rounding
+// that depends on the flag changes the recorded computation)
+// ------------------------------------------------------------------------------------------------
+fn overshoot_column(xs: &[f64], lane: usize) -> Vec<f64> {
+    // y values such that fl((y2-y1)/(x2-x1)*(x2-x1)+y1) != y2 on as many segments as possible
+    let cands = [0.1, 0.3, 2.22, 0.7, 1.1, 2.3, 0.9, 3.3, 0.15, 1.7, 2.9, 0.45, 5.1, 0.35];
+    let mut ys = vec![cands[lane % cands.len()]];
+    for i in 1..xs.len() {
+        let y1 = ys[i - 1];
+        let mut pick = cands[(i * 3 + lane) % cands.len()];
+        for k in 0..cands.len() {
+            let y2 = cands[(i * 3 + lane + k) % cands.len()];
+            let r = (y2 - y1) / (xs[i] - xs[i - 1]) * (xs[i] - xs[i - 1]) + y1;
+            if r != y2 { pick = y2; break; }
+        }
+        ys.push(pick);
+    }
+    ys
+}
+pub fn flagpair(args: &[String], checks: &mut Vec<Check>) {
+    let n: usize = str_arg(args, "n", "6").parse().unwrap();
+    let lanes: usize = str_arg(args, "lanes", "2").parse().unwrap();
+    let x = axis("x", n, 1);
+    let xs: Vec<f64> = x.iter().map(|s| shadow(*s)).collect();
+    let cols: Vec<Vec<f64>> = (0..lanes).map(|l| overshoot_column(&xs, l)).collect();
+    let data: Array2<Sym> = Array2::from_shape_fn((n, lanes), |(i, l)| var(&format!("y{i}_{l}"), cols[l][i]));
+    let mut qs: Vec<Sym> = Vec::new();
+    for i in 0..n {
+        qs.push(var(&format!("qk{i}"), xs[i]));
+        if i + 1 < n {
+            qs.push(var(&format!("qm{i}"), xs[i] + 0.3125 * (xs[i + 1] - xs[i])));
+            qs.push(var(&format!("qb{i}"), f64::from_bits(xs[i + 1].to_bits() - if xs[i + 1] > 0.0 { 1 } else { 0 }).min(xs[i + 1])));
+        }
+    }
+    let overs = (1..n).filter(|&i| { let (a, b) = (cols[0][i - 1], cols[0][i]); (b - a) / (xs[i] - xs[i - 1]) * (xs[i] - xs[i - 1]) + a != b }).count();
+    ck(checks, format!("C06:flagpair-data-has-rounding-overshoot[n={n}]"), overs >= 1, format!("{overs} segments"));
+    macro_rules! pair { ($name:expr, $off:expr, $on:expr) => {{
+        let (off, on) = ($off, $on);
+        let mut ok = true; let mut detail = String::new();
+        for q in qs.iter() {
+            match (off.interp(*q), on.interp(*q)) {
+                (Ok(a), Ok(b)) => { if ids(&a) != ids(&b) { ok = false; detail = format!("query {:?}", q); } }
+                (Err(_), _) | (_, Err(_)) => { ok = false; detail = format!("in-range query rejected: {:?}", q); }
+            }
+        }
+        ck(checks, format!("C06:in-range-identical-with-flag-on-and-off[{},n={n},lanes={lanes}]", $name), ok, detail);
+    }}; }
+    pair!("linear", Interp1DBuilder::new(data.clone()).x(x.clone()).strategy(Linear::new()).build().unwrap(),
+          Interp1DBuilder::new(data.clone()).x(x.clone()).strategy(Linear::new().extrapolate(true)).build().unwrap());
+    if n >= 3 {
+        pair!("spline", Interp1DBuilder::new(data.clone()).x(x.clone()).strategy(CubicSpline::new()).build().unwrap(),
+              Interp1DBuilder::new(data.clone()).x(x.clone()).strategy(CubicSpline::new().extrapolate(true)).build().unwrap());
+        pair!("spline-natural", Interp1DBuilder::new(data.clone()).x(x.clone()).strategy(CubicSpline::new().boundary(BoundaryCondition::Natural)).build().unwrap(),
+              Interp1DBuilder::new(data.clone()).x(x.clone()).strategy(CubicSpline::new().boundary(BoundaryCondition::Natural).extrapolate(true)).build().unwrap());
+    }
+    // 2-D
+    let ny = 4usize;
+    let y = axis("y", ny, 5);
+    let ys: Vec<f64> = y.iter().map(|s| shadow(*s)).collect();
+    let d2: Array2<Sym> = Array2::from_shape_fn((n, ny), |(i, k)| var(&format!("z{i}_{k}"), overshoot_column(&xs, k)[i] + 0.1 * k as f64));
+    let off = Interp2DBuilder::new(d2.clone()).x(x.clone()).y(y.clone()).strategy(Bilinear::new()).build().unwrap();
+    let on = Interp2DBuilder::new(d2).x(x.clone()).y(y.clone()).strategy(Bilinear::new().extrapolate(true)).build().unwrap();
+    let mut ok = true; let mut detail = String::new();
+    for (i, q) in qs.iter().enumerate() {
+        for qy in [var(&format!("qyk{}", i % ny), ys[i % ny]), var(&format!("qym{}", i % (ny - 1)), ys[i % (ny - 1)] + 0.4375 * (ys[i % (ny - 1) + 1] - ys[i % (ny - 1)]))] {
+            match (off.interp_scalar(*q, qy), on.interp_scalar(*q, qy)) {
+                (Ok(a), Ok(b)) => { if a.0 != b.0 { ok = false; detail = format!("query {i}"); } }
+                _ => { ok = false; detail = format!("in-range query rejected: {i}"); }
+            }
+        }
+    }
+    ck(checks, format!("C06:in-range-identical-with-flag-on-and-off[bilinear,n={n}]"), ok, detail);
 }
